@@ -22,6 +22,11 @@ Cfg_grow2 == { Cfg(bs, 0, << <<E(i)>>, <<E(j)>> >>) : bs \in {1, 2}, i \in 0..3,
 Cfg_grow3 == { Cfg(bs, 0, << <<E(i)>>, <<E(j)>>, <<E(k)>> >>) : bs \in {1, 2}, i \in {0, 1}, j \in {1, 2}, k \in {2, 5} }
 \* clock families: growers + snapshot holder + gc caller.  t0 puts the start near the stamp wrap.
 Cfg_clock == { Cfg(1, t0, << <<E(0)>>, <<E(1)>>, <<S, U(0)>>, <<G>> >>) : t0 \in {0, 2 * TPU} }
+\* stamp arithmetic across the wrap and from initial clock values beyond one and several wraps (SMOD units each):
+\* one grower that supersedes two tables, a snapshot holder that also calls gc, a gc caller
+WrapStarts == {(SMOD - 1) * TPU, SMOD * TPU + TPU, 2 * SMOD * TPU + 3 * TPU, 5 * SMOD * TPU}
+Cfg_wrap == { Cfg(1, t0, << <<E(0), E(1), E(2)>>, <<S, U(0), G>>, <<G>> >>) : t0 \in WrapStarts }
+Cfg_h4w == { Cfg(1, t0, << <<E(0)>>, <<E(1)>>, <<G>> >>) : t0 \in WrapStarts }
 \* smallest witness family of hypothesis H4: two growers, one gc caller
 Cfg_h4 == { Cfg(1, 0, << <<E(0)>>, <<E(1)>>, <<G>> >>) }
 \* weak memory (no clock): publication of the table and of the elements behind it
